@@ -119,6 +119,32 @@ class SymTD:
     def contiguous(self):
         return self
 
+    def _tail(self, v):
+        return tuple(v.shape[len(self.batch_size):])
+
+    def expand(self, *sizes):
+        sizes = ops._shape_args(sizes)
+        out = {k: ops.expand(v, *(tuple(sizes) + tuple(-1 for _ in self._tail(v)))) for k, v in self.data.items()}
+        probe = ops.expand(ops.const_tensor(self.batch_size, "b", False), *sizes)
+        return SymTD(out, probe.shape)
+
+    def view(self, *sizes):
+        sizes = ops._shape_args(sizes)
+        out = {k: ops.reshape(v, *(tuple(sizes) + self._tail(v))) for k, v in self.data.items()}
+        probe = ops.reshape(ops.const_tensor(self.batch_size, "b", False), *sizes)
+        return SymTD(out, probe.shape)
+
+    reshape = view
+
+    def permute(self, *dims):
+        dims = ops._shape_args(dims)
+        nb = len(self.batch_size)
+        out = {k: ops.permute(v, *(tuple(dims) + tuple(range(nb, v.rank)))) for k, v in self.data.items()}
+        return SymTD(out, tuple(self.batch_size[d] for d in dims))
+
+    def gather(self, dim, index):
+        raise Unsupported("TensorDict.gather")
+
     def apply_each(self, fn, batch_size):
         return SymTD({k: fn(v) for k, v in self.data.items()}, batch_size)
 
